@@ -259,6 +259,12 @@ copy_of_library!(exec_alloc, memchr_alloc, crate::episode::Krate::Alloc, true,
 copy_of_library!(exec_core, memchr_core, crate::episode::Krate::Core, false,
     macro_rules! if_alloc { ($($t:tt)*) => {} });
 
+fn set_tick_seams_for(k: Option<Krate>) {
+    exec_std::set_tick_seams(k == Some(Krate::Std));
+    exec_alloc::set_tick_seams(k == Some(Krate::Alloc));
+    exec_core::set_tick_seams(k == Some(Krate::Core));
+}
+
 fn install_hooks_for(k: Krate) {
     exec_std::install_hooks(k == Krate::Std);
     exec_alloc::install_hooks(k == Krate::Alloc);
@@ -381,6 +387,7 @@ pub fn execute(
     exec_core::reset_slots();
     world::set_world(Some(w));
     install_hooks_for(env.krate);
+    set_tick_seams_for(if env.tick_preempt > 0 && mode == RtMode::Shuttle { Some(env.krate) } else { None });
 
     let logs: Vec<Vec<Res>> = match mode {
         #[cfg(feature = "shuttle")]
@@ -415,6 +422,7 @@ pub fn execute(
     };
 
     install_hooks_for_none();
+    set_tick_seams_for(None);
     world::set_world(None);
     // SAFETY: nothing refers to the world any more (hooks uninstalled, all
     // tasks joined)
